@@ -136,28 +136,43 @@ end Femio.C05
 /-! key scheme (`Model/NpyKeys.lean`)
 
 ```
-c05k.todict list(<name> list(<type>))          -> ok list(key)       keys of ecollToDict (elemental collection)
-c05k.ntodict list(<name>)                      -> ok list(key)       keys of collToDict (nodal collection)
-c05k.split <typeByComponent> list(key) <type>  -> ok list(key)       entriesOfType
-c05k.kind <kindBySuffix> <key>                 -> ok i | d | x
-``` -/
+ts := 0 | 1                                    whether the attribute is a time series (FEMAttribute.time_series)
+tsFlag := 0 | 1                                Cfg.tsFlag: the tree writes / honours the key "<prefix>/time_series" (repair F6d)
+c05k.todict <tsFlag> list(<name> list(<type> <ts>))  -> ok list(key)   keys of ecollToDict (elemental collection)
+c05k.ntodict <tsFlag> list(<name> <ts>)              -> ok list(key)   keys of collToDict (nodal collection)
+c05k.split <typeByComponent> list(key) <type>        -> ok list(key)   entriesOfType
+c05k.kind <kindBySuffix> <tsFlag> <key>              -> ok s | i | d | x   (time_series key tested first, then ids, then data)
+c05k.fromdict <tsFlag> list(<key> <value>)           -> ok none | ok some <ids> <data> <ts>    attrFromDict ⟨1, 1, tsFlag⟩
+```
+A tree without the repair (`tsFlag = 0`) writes `attrToDict pre a.twoKey`: the two keys, whatever the flag. -/
 namespace Femio.C05K
 open Femio.Proto
 
+def mkAttr (tsFlag ts : Bool) : Attr := if tsFlag then ⟨0, 0, ts⟩ else Attr.twoKey ⟨0, 0, ts⟩
+
 def handle : List String → Option String
   | "c05k.todict" :: rest => do
-    let c ← run (listOf (do let n ← str; let ts ← listOf str; pure (n, ts))) rest
-    let coll : List (Str × EAttr) := c.map fun (n, ts) => (n, ts.map fun t => (t, (⟨0, 0⟩ : Attr)))
+    let (f, c) ← run (do
+      let f ← bool
+      let c ← listOf (do let n ← str; let ts ← listOf (do let t ← str; let b ← bool; pure (t, b)); pure (n, ts))
+      pure (f, c)) rest
+    let coll : List (Str × EAttr) := c.map fun (n, ts) => (n, ts.map fun (t, b) => (t, mkAttr f b))
     some ("ok " ++ showList (fun (e : Str × Nat) => escape e.1) (ecollToDict coll))
   | "c05k.ntodict" :: rest => do
-    let c ← run (listOf str) rest
-    some ("ok " ++ showList (fun (e : Str × Nat) => escape e.1) (collToDict (c.map fun n => (n, (⟨0, 0⟩ : Attr)))))
+    let (f, c) ← run (do let f ← bool; let c ← listOf (do let n ← str; let b ← bool; pure (n, b)); pure (f, c)) rest
+    some ("ok " ++ showList (fun (e : Str × Nat) => escape e.1) (collToDict (c.map fun (n, b) => (n, mkAttr f b))))
   | "c05k.split" :: rest => do
     let (b, ks, t) ← run (do let b ← bool; let ks ← listOf str; let t ← str; pure (b, ks, t)) rest
-    some ("ok " ++ showList (fun (e : Str × Nat) => escape e.1) (entriesOfType ⟨b, true⟩ (ks.map fun k => (k, 0)) t))
+    some ("ok " ++ showList (fun (e : Str × Nat) => escape e.1) (entriesOfType ⟨b, true, true⟩ (ks.map fun k => (k, 0)) t))
   | "c05k.kind" :: rest => do
-    let (b, k) ← run (do let b ← bool; let k ← str; pure (b, k)) rest
-    some ("ok " ++ (if isIdsKey ⟨true, b⟩ k then "i" else if isDataKey ⟨true, b⟩ k then "d" else "x"))
+    let (b, f, k) ← run (do let b ← bool; let f ← bool; let k ← str; pure (b, f, k)) rest
+    let cfg : Cfg := ⟨true, b, f⟩
+    some ("ok " ++ (if isTsKey cfg k then "s" else if isIdsKey cfg k then "i" else if isDataKey cfg k then "d" else "x"))
+  | "c05k.fromdict" :: rest => do
+    let (f, d) ← run (do let f ← bool; let d ← listOf (do let k ← str; let v ← nat; pure (k, v)); pure (f, d)) rest
+    match attrFromDict ⟨true, true, f⟩ d with
+    | none => some "ok none"
+    | some a => some s!"ok some {a.ids} {a.data} {showBool a.ts}"
   | _ => none
 
 end Femio.C05K
